@@ -101,7 +101,7 @@ class MatrixExp3_c(Contract):
     """MatrixExp3(hat w): the documented exponential (identity inside the 1e-6 cut-off, Rodrigues outside),
     a proper rotation (R^T R = I, det R = 1) on every path, and within 5e-6 of Rodrigues' formula even
     inside the cut-off (the tolerance the property states)."""
-    prop = ('C01', 'C03', 'C04', 'C12', 'C18')   # callee contracts the upper layers are verified against
+    prop = ('C01', 'C03', 'C04', 'C12', 'C18', 'C17')   # callee contracts the upper layers are verified against; every branch of the kernel is executed with NumPy's index checks (C17)
     target = MR + ':MatrixExp3'
     under_contract = (MR + ':NearZero', MR + ':Norm', MR + ':AxisAng3', MR + ':Normalize', MR + ':so3ToVec')
 
@@ -147,7 +147,7 @@ class MatrixExp6_c(Contract):
 @register
 class TransInv_c(Contract):
     """TransInv(T) = [[R^T, -R^T p],[0,1]]; inv(T) T = T inv(T) = I for every T in SE(3)"""
-    prop = ('C01', 'C03', 'C04', 'C12', 'C18')   # callee contracts the upper layers are verified against
+    prop = ('C01', 'C03', 'C04', 'C12', 'C18', 'C17')   # callee contracts the upper layers are verified against; every branch of the kernel is executed with NumPy's index checks (C17)
     target = MR + ':TransInv'
     under_contract = (MR + ':TransToRp',)
 
@@ -165,7 +165,7 @@ class TransInv_c(Contract):
 @register
 class Adjoint_c(Contract):
     """Adjoint(T) = [[R,0],[[p]R,R]] ; Ad(T1 T2) = Ad(T1) Ad(T2) ; Ad(inv T) Ad(T) = I ; T [V] inv(T) = [Ad(T) V]"""
-    prop = ('C01', 'C03', 'C04', 'C12', 'C18')   # callee contracts the upper layers are verified against
+    prop = ('C01', 'C03', 'C04', 'C12', 'C18', 'C17')   # callee contracts the upper layers are verified against; every branch of the kernel is executed with NumPy's index checks (C17)
     target = MR + ':Adjoint'
     under_contract = (MR + ':TransToRp', MR + ':VecToso3', MR + ':TransInv', MR + ':VecTose3')
 
